@@ -10,58 +10,29 @@ import MidnightZK.Proofs.C12.Interp
 import MidnightZK.Proofs.C12.Ifft
 import MidnightZK.Proofs.C12.Bitrev
 import MidnightZK.Proofs.C12.BatchAdd
+import MidnightZK.Proofs.C12.ParSites
+import MidnightZK.Proofs.C12.Refine
+import MidnightZK.Proofs.C12.Coset
+import Mathlib.Algebra.Module.Defs
+import Mathlib.Algebra.Field.GeomSum
 import Mathlib.Algebra.Field.Rat
 import Mathlib.Tactic.NormNum
 import MidnightZK.Model.C12.Curve
+import MidnightZK.Model.C12.MsmTrace
 import MidnightZK.Gen.C12Consts
+import MidnightZK.Gen.C12ParSites
 /-!
 # C12 — MSM, FFT and the evaluation-domain algebra equal their naive definitions
 Property theorems (helper lemmas live in `MidnightZK/Proofs`).
 -/
 namespace MidnightZK.C12
 
-private theorem flatMap_range' (s c : Nat) : ∀ n,
-    (List.range n).flatMap (fun i => List.range' (s + i * c) c) = List.range' s (n * c)
-  | 0 => by simp
-  | n + 1 => by
-    rw [List.range_succ, List.flatMap_append, flatMap_range' s c n]
-    simp only [List.flatMap_cons, List.flatMap_nil, List.append_nil]
-    rw [Nat.succ_mul, ← List.range'_append_1]
-
 /-- `parallelize` hands every index of `[0, len)` to exactly one worker, with the offset the
 worker is told: for every length and every positive thread count. Index-wise maps built on it
 are therefore independent of the number of threads. -/
 theorem parallelize_partition (len t : Nat) (ht : 0 < t) :
-    visited len t = List.range len := by
-  unfold visited chunks
-  simp only [List.flatMap_append]
-  have hdm : t * (len / t) + len % t = len := Nat.div_add_mod len t
-  have hlt : len % t < t := Nat.mod_lt _ ht
-  generalize hb : len / t = base at *
-  generalize hc : len % t = cutoff at *
-  have h1 : (if cutoff ≠ 0 then (List.range cutoff).map (fun id => (id * (base + 1), base + 1)) else []).flatMap
-      (fun c => List.range' c.1 c.2) = List.range' 0 (cutoff * (base + 1)) := by
-    split
-    · rw [List.flatMap_map]
-      have := flatMap_range' 0 (base + 1) cutoff
-      simpa using this
-    · next h => simp at h; simp [h]
-  have hsum : len = cutoff * (base + 1) + (t - cutoff) * base := by
-    rw [Nat.sub_mul, Nat.mul_add, Nat.mul_one]
-    have : cutoff * base ≤ t * base := Nat.mul_le_mul_right _ (Nat.le_of_lt hlt)
-    omega
-  have hsplit : len - cutoff * (base + 1) = (t - cutoff) * base := by omega
-  have h2 : (if base ≠ 0 then (List.range ((len - cutoff * (base + 1)) / base)).map
-        (fun id => (cutoff * (base + 1) + id * base, base)) else []).flatMap
-      (fun c => List.range' c.1 c.2) = List.range' (cutoff * (base + 1)) ((t - cutoff) * base) := by
-    split
-    · next h =>
-      rw [List.flatMap_map, hsplit, Nat.mul_div_cancel _ (Nat.pos_of_ne_zero h)]
-      exact flatMap_range' _ base _
-    · next h => simp at h; simp [h]
-  rw [h1, h2, List.range_eq_range']
-  conv => rhs; rw [hsum]
-  rw [← List.range'_append_1]; simp
+    visited len t = List.range len :=
+  visited_eq_range len t ht
 
 /-- Non-vacuity: 40 items on 12 threads give the 4,4,4,4,3,…,3 split of the source comment. -/
 example : (chunks 40 12).map (·.2) = [4, 4, 4, 4, 3, 3, 3, 3, 3, 3, 3, 3] := by decide
@@ -306,6 +277,54 @@ theorem msm_best_spec [DecidableEq G] (t : Nat) (ht : 0 < t) (numBits : Nat)
         _ ≤ 2 ^ (c * nw) := Nat.pow_le_pow_right (by norm_num) h3
     rw [booth_recompose nw c cb.1 (hbytes cb.1 hco) hc1 hc24 hcover, natCast_zsmul]
 
+/-- Above the threshold (`⌈ln len⌉ ≥ 10`, i.e. from 8104 bases on) `msm_best` IS the window loop
+`msmBestWindows` with the natural window size — the loop the hook `verif_trace` observes, also with
+a forced small window. -/
+theorem msm_best_eq_windows [DecidableEq G] (t numBits : Nat) (coeffs : List (List Nat))
+    (bases : List G) (h : ¬ chooseWindow bases.length < 10) :
+    msmBest t numBits coeffs bases
+      = msmBestWindows (chooseWindow bases.length) numBits coeffs bases := by
+  unfold msmBest msmBestWindows
+  simp only [h, if_false]
+
+/-- `msm_best_windows_spec`: the batch-affine window loop of `msm_best` returns the naive sum for
+EVERY window size `1 ≤ c ≤ 24` (not only the natural one): identity filter, digit → bucket,
+`contains` → Jacobian / schedule, flush, summation by parts, shift by `c·w`, sum over
+`NUM_BITS / c + 1` windows. -/
+theorem msm_best_windows_spec [DecidableEq G] (c numBits : Nat) (hc1 : 1 ≤ c) (hc24 : c ≤ 24)
+    (coeffs : List (List Nat)) (bases : List G)
+    (hbytes : ∀ co ∈ coeffs, ∀ b ∈ co, b < 256) (hval : ∀ co ∈ coeffs, leBytesToNat co < 2 ^ numBits) :
+    msmBestWindows c numBits coeffs bases = msmSpec coeffs bases := by
+  unfold msmBestWindows
+  simp only []
+  set nw := numBits / c + 1 with hnw
+  rw [foldl_add_map, zero_add, list_range_sum]
+  have hw : ∀ w, windowBest w c coeffs bases
+      = (2 ^ (c * w) : Nat) • ((coeffs.zip bases).map (fun cb => boothIndex w c cb.1 • cb.2)).sum :=
+    fun w => windowBest_spec w c coeffs bases
+      (fun co hco => booth_digit_bound w c co (hbytes co hco) hc1 hc24)
+  simp only [hw]
+  rw [sum_windows_exchange (coeffs.zip bases) nw (fun w co => boothIndex w c co) c]
+  unfold msmSpec
+  apply congrArg
+  apply List.map_congr_left
+  intro cb hcb
+  have hco := (List.of_mem_zip hcb).1
+  have hcover : 2 * leBytesToNat cb.1 < 2 ^ (c * nw) := by
+    have h1 := hval cb.1 hco
+    have h3 : numBits + 1 ≤ c * nw := by
+      have := Nat.div_add_mod numBits c
+      have hm := Nat.mod_lt numBits hc1
+      rw [hnw, Nat.mul_add, Nat.mul_one]
+      omega
+    calc 2 * leBytesToNat cb.1 < 2 * 2 ^ numBits := by omega
+      _ = 2 ^ (numBits + 1) := by rw [pow_succ]; ring
+      _ ≤ 2 ^ (c * nw) := Nat.pow_le_pow_right (by norm_num) h3
+  rw [booth_recompose nw c cb.1 (hbytes cb.1 hco) hc1 hc24 hcover, natCast_zsmul]
+
+example : msmBestWindows 3 8 [[3], [3], [200], [1], [77], [5]] [(7 : Int), 7, -14, 4, 0, 1]
+    = 3 * 7 + 3 * 7 + 200 * (-14) + 4 + 0 + 5 := by decide
+
 /-- Non-vacuity of the schedule: one window of size 3 over ℤ with repeated, opposite and zero
 bases (bucket 1 is assigned, then scheduled, then cancelled; bucket 0 goes to the Jacobian side). -/
 example : windowBest 0 3 [[3], [3], [3], [1], [1], [5]] [(7 : Int), 7, -14, 4, 0, 1]
@@ -441,6 +460,53 @@ theorem batch_add_on_curve (b : F) (B P R : Aff F) (sign : Bool)
     (hB : B.y ^ 2 = B.x ^ 3 + b) (hP : P.y ^ 2 = P.x ^ 3 + b) (hy : B.x = P.x → B.y + B.y ≠ 0)
     (hR : affAddSigned B P sign = some R) : R.y ^ 2 = R.x ^ 3 + b :=
   affAddSigned_on_curve b B P R sign hB hP hy hR
+
+end
+
+/-! ### Refinement: coordinate-level `batch_add` implements the abstract-group `Schedule` -/
+
+section
+variable {F : Type} [Field F] [DecidableEq F] {G : Type} [AddCommGroup G] [DecidableEq G]
+
+/-- `batch_add_refines_schedule`: the two models of the batch-affine path are tied to each other.
+Given the affine group law of `y² = x³ + b` as the single hypothesis `AffineLaw b φ` (finite points
+are non-zero group elements, `(x, −y)` is the opposite, the chord / tangent point of non-opposite
+points is the sum — C11's subject), for every batch satisfying the schedule invariant over on-curve
+buckets and bases, the coordinate-level `batch_add` (two loops, ONE inversion) succeeds and its
+buckets read through `φ` are exactly the buckets the abstract-group `Schedule::execute` — the one
+`msm_best_spec` is proved about — produces from the same pending entries: chord ↦ sum, tangent ↦
+double, `set_inf` ↦ `None` exactly when the group sum is zero. -/
+theorem batch_add_refines_schedule (b : F) (φ : Aff F → G) (law : AffineLaw b φ)
+    (bases : List (Aff F)) (buckets : List (Option (Aff F))) (points : List SchedPt)
+    (hok : BatchOk bases buckets points) (hbk : ∀ B, some B ∈ buckets → OnCurve b B)
+    (hbs : ∀ P ∈ bases, OnCurve b P) :
+    ∃ out, batchAdd (fun a => if a = 0 then none else some a⁻¹) bases buckets points = some out ∧
+      out.map (Option.map φ)
+        = (Sched.execute { buckets := buckets.map (Option.map φ),
+                           pending := points.map (absEntry φ bases) }).buckets :=
+  batchAdd_refines_execute b φ law bases buckets points hok hbk hbs
+
+omit [DecidableEq F] [DecidableEq G] in
+/-- …and the coordinate-level invariant is the abstract one: a `BatchOk` batch stands for an
+abstract schedule state satisfying `Sched.Inv` (`schedule_invariant`). The hypotheses of the
+refinement other than the law are satisfiable (`batch_add_spec`'s example over ℚ); `AffineLaw`
+itself is the classical group law of the curve and is NOT instantiated in this project. -/
+theorem batch_ok_gives_schedule_inv (φ : Aff F → G) (bases : List (Aff F))
+    (buckets : List (Option (Aff F))) (points : List SchedPt) (hok : BatchOk bases buckets points) :
+    (Sched.Inv { buckets := buckets.map (Option.map φ), pending := points.map (absEntry φ bases) } : Prop) :=
+  hok.toInv φ bases buckets points
+
+/-- Non-vacuity of the non-law hypotheses: the ℚ batch of `batch_add_spec`'s example (chord,
+doubling — the cancellation entry left out since `(2,−3)` would need its own bucket) satisfies
+`BatchOk` and the on-curve conditions for `y² = x³ + 1`. -/
+example : BatchOk [(⟨2, 3⟩ : Aff ℚ)] [some ⟨0, 1⟩, some ⟨2, 3⟩] [⟨0, 0, true⟩, ⟨0, 1, true⟩] ∧
+    OnCurve (1 : ℚ) ⟨2, 3⟩ ∧ OnCurve (1 : ℚ) ⟨0, 1⟩ := by
+  refine ⟨⟨by decide, ?_⟩, by norm_num [OnCurve], by norm_num [OnCurve]⟩
+  intro e he
+  simp only [List.mem_cons, List.not_mem_nil, or_false] at he
+  rcases he with rfl | rfl
+  · exact ⟨⟨0, 1⟩, ⟨2, 3⟩, rfl, rfl, by norm_num⟩
+  · exact ⟨⟨2, 3⟩, ⟨2, 3⟩, rfl, rfl, by norm_num⟩
 
 end
 
@@ -881,6 +947,77 @@ example : (bestFft 1 [(3 : ℚ), 5] (-1) 1).bind
     (fun e => ifft 2 e (-1)⁻¹ 1 ((2 ^ 1 : Nat) : ℚ)⁻¹) = some [3, 5] := by
   decide +kernel
 
+omit [DecidableEq F] in
+/-- `extended_to_coeff_spec`: `extended_to_coeff` undoes `coeff_to_extended` — the coefficient vector
+comes back, followed by the `2^extended_k − 2^k` zero coefficients of the padding (the form in
+which the quotient is handed to the commitment step), for every pair of thread counts: inverse FFT
+with `ω_e⁻¹` and divisor `1/2^extended_k`, then the coset scaling with `ζ⁻¹ = ζ²` (`ζ³ = 1`). -/
+theorem extended_to_coeff_spec (d : Domain F) (t1 t2 : Nat) (a : List F) (hlen : a.length = 2 ^ d.k)
+    (hk : d.k ≤ d.extendedK) (hz : d.gCoset ^ 3 = 1) (hzi : d.gCosetInv = d.gCoset * d.gCoset)
+    (hω : 1 ≤ d.extendedK → d.extendedOmega ^ (2 ^ (d.extendedK - 1)) = -1)
+    (hinv : d.extendedOmegaInv = d.extendedOmega⁻¹)
+    (hdiv : d.extendedIfftDivisor = ((2 ^ d.extendedK : Nat) : F)⁻¹)
+    (h2 : (1 : F) ≠ -1) (hn : ((2 ^ d.extendedK : Nat) : F) ≠ 0) :
+    (d.coeffToExtended t1 a).bind (d.extendedToCoeff t2)
+      = some (a ++ List.replicate (2 ^ d.extendedK - 2 ^ d.k) 0) := by
+  have hle : 2 ^ d.k ≤ 2 ^ d.extendedK := Nat.pow_le_pow_right (by norm_num) hk
+  set P := distributePowersZeta d a true
+      ++ List.replicate (2 ^ d.extendedK - (distributePowersZeta d a true).length) 0 with hP
+  have hPl : P.length = 2 ^ d.extendedK := by
+    rw [hP, List.length_append, List.length_replicate, dpz_length, hlen]; omega
+  have hid := ifft_fft_id t1 t2 d.extendedK P d.extendedOmega hPl hω h2 hn
+  unfold Domain.coeffToExtended Domain.extendedToCoeff
+  simp only [hlen, ne_eq, not_true_eq_false, if_false]
+  rw [hinv, hdiv]
+  cases hb : bestFft t1 P d.extendedOmega d.extendedK with
+  | none => rw [hb] at hid; simp at hid
+  | some e =>
+    rw [hb] at hid
+    simp only [Option.bind_some] at hid ⊢
+    rw [hid]
+    simp only [Option.map_some]
+    congr 1
+    rw [hP, dpz_append_zeros, dpz_inverse d a hz hzi, dpz_length, hlen]
+
+omit [DecidableEq F] in
+/-- `extended_to_lagrange_spec`: `extended_to_lagrange` applied to the coset evaluations of a
+polynomial of degree `< n` (`coeff_to_extended`) returns its Lagrange form (`coeff_to_lagrange`):
+the `truncate(n)` after the inverse FFT drops exactly the zero padding. -/
+theorem extended_to_lagrange_spec (d : Domain F) (t1 t2 : Nat) (a : List F) (hlen : a.length = 2 ^ d.k)
+    (hn' : d.n = 2 ^ d.k) (hk : d.k ≤ d.extendedK) (hz : d.gCoset ^ 3 = 1)
+    (hzi : d.gCosetInv = d.gCoset * d.gCoset)
+    (hω : 1 ≤ d.extendedK → d.extendedOmega ^ (2 ^ (d.extendedK - 1)) = -1)
+    (hinv : d.extendedOmegaInv = d.extendedOmega⁻¹)
+    (hdiv : d.extendedIfftDivisor = ((2 ^ d.extendedK : Nat) : F)⁻¹)
+    (h2 : (1 : F) ≠ -1) (hn : ((2 ^ d.extendedK : Nat) : F) ≠ 0) :
+    (d.coeffToExtended t1 a).bind (d.extendedToLagrange t2) = d.coeffToLagrange t2 a := by
+  have hle : 2 ^ d.k ≤ 2 ^ d.extendedK := Nat.pow_le_pow_right (by norm_num) hk
+  set P := distributePowersZeta d a true
+      ++ List.replicate (2 ^ d.extendedK - (distributePowersZeta d a true).length) 0 with hP
+  have hPl : P.length = 2 ^ d.extendedK := by
+    rw [hP, List.length_append, List.length_replicate, dpz_length, hlen]; omega
+  have hid := ifft_fft_id t1 t2 d.extendedK P d.extendedOmega hPl hω h2 hn
+  unfold Domain.coeffToExtended Domain.extendedToLagrange Domain.coeffToLagrange
+  simp only [hlen, ne_eq, not_true_eq_false, if_false]
+  rw [hinv, hdiv]
+  cases hb : bestFft t1 P d.extendedOmega d.extendedK with
+  | none => rw [hb] at hid; simp at hid
+  | some e =>
+    rw [hb] at hid
+    simp only [Option.bind_some] at hid ⊢
+    rw [hid]
+    simp only []
+    have htake : P.take d.n = distributePowersZeta d a true := by
+      rw [hP, hn', List.take_left' (by rw [dpz_length, hlen])]
+    rw [htake, dpz_inverse d a hz hzi]
+
+/-- Non-vacuity over ℚ (`n = 2`, `ω = ω_e = −1`, `ζ = 1`, `extended_k = k = 1`). -/
+example : ((sampleDomain (-1 : ℚ) (1 / 2)).coeffToExtended 1 [3, 5]).bind
+      ((sampleDomain (-1 : ℚ) (1 / 2)).extendedToCoeff 2) = some [3, 5] ∧
+    ((sampleDomain (-1 : ℚ) (1 / 2)).coeffToExtended 1 [3, 5]).bind
+      ((sampleDomain (-1 : ℚ) (1 / 2)).extendedToLagrange 2) = some [8, -2] := by
+  constructor <;> decide +kernel
+
 /-- `lagrange_interpolate_spec`: for every list of pairwise distinct points and as many values
 (over a field), `lagrange_interpolate` returns a coefficient vector of the same length whose
 polynomial takes the given value at each point (the documented panics — length mismatch, repeated
@@ -953,6 +1090,359 @@ theorem rotate_omega_spec (d : Domain F) (hinv : d.omegaInv = d.omega⁻¹) (v :
   rotateOmega_eq d hinv v r
 
 end
+
+/-! ## Every parallel / chunked site of the anchored sources
+
+The inventory `Gen.parSites` is regenerated from the sources on every run
+(`translators/c12_parsites.py`); each site has a mirror with the thread count as a parameter
+(`Model/C12/ParSites.lean`) and a theorem that the thread count does not matter. -/
+
+section
+variable {α : Type}
+
+/-- `parallelize` with an index-wise worker — written with `enumerate()` added to `start`
+(`wEnum`) or with a running `index += 1` (`wRunning`) — computes `v[i] ↦ f i v[i]` for every
+positive thread count: every chunk layout of `parallelize_partition` gives the same vector. -/
+theorem parallelize_indexed_indep (t : Nat) (ht : 0 < t) (f : Nat → α → α) (v : List α) :
+    parallelizeWith t (wEnum f) v = List.zipWith (fun x i => f i x) v (List.range v.length) ∧
+    parallelizeWith t (wRunning f) v = List.zipWith (fun x i => f i x) v (List.range v.length) := by
+  rw [parallelizeWith_wEnum t ht, parallelizeWith_wRunning t ht, wEnum_eq_wRunning,
+    wRunning_eq_zipWith, List.range_eq_range']
+  exact ⟨rfl, rfl⟩
+
+/-- …and with an index-free worker (`|chunk, _| for x in chunk { *x = g(*x) }`) it is `map g`. -/
+theorem parallelize_map_indep (t : Nat) (ht : 0 < t) (g : α → α) (v : List α) :
+    parallelizeWith t (wMap g) v = v.map g :=
+  parallelizeWith_wMap t ht g v
+
+example : parallelizeWith 3 (wRunning (fun i (x : Nat) => 10 * i + x)) [1, 2, 3, 4, 5, 6, 7]
+    = [1, 12, 23, 34, 45, 56, 67] := by decide
+
+/-- `Polynomial::{add_assign, add, sub}` (`poly/mod.rs`, worker `zip(rhs.values[start..])`): when
+`rhs` is at least as long as `lhs` (always the case between polynomials of one domain) no worker
+panics and the result is the entry-wise operation, for every positive thread count. -/
+theorem poly_zip_par_indep (t : Nat) (ht : 0 < t) (op : α → α → α) (lhs rhs : List α)
+    (hlen : lhs.length ≤ rhs.length) :
+    polyZipPar t op lhs rhs = some (List.zipWith op lhs rhs) :=
+  polyZipPar_eq t ht op lhs rhs hlen
+
+/-- Non-vacuity, and why the hypothesis is there: with a SHORTER `rhs` the outcome of the code
+depends on the thread count (one thread: the tail of `lhs` is kept; four threads: the worker whose
+`start` lies beyond `rhs` panics on `rhs.values[start..]`). Not reachable between polynomials of
+one `EvaluationDomain`; `Polynomial::init(n)` of two sizes reaches it. -/
+example : polyZipPar 3 (· + ·) [1, 2, 3, 4] [10, 20, 30, 40] = some [11, 22, 33, 44] ∧
+    polyZipPar 1 (· + ·) [1, 2, 3, 4] [10] = some [11, 2, 3, 4] ∧
+    polyZipPar 4 (· + ·) [1, 2, 3, 4] [10] = none := by decide
+
+/-- `ParamsKZG::read_custom` (`SerdeFormat::Processed`): the parallel decode
+`points[start + i] = from_bytes(compressed[start + i])` is the `map` of the decoder. -/
+theorem read_points_par_indep {β : Type} (t : Nat) (ht : 0 < t) (dec : α → Option β)
+    (compressed : List α) : readPointsPar t dec compressed = compressed.map dec :=
+  readPointsPar_eq t ht dec compressed
+
+end
+
+section
+variable {F : Type} [CommRing F]
+
+/-- `distribute_powers_zeta` (running `index % 3`) on any positive number of threads is the
+index-wise scaling by `1, c₀, c₁, 1, …` that `coeff_to_extended_spec` is stated for. -/
+theorem distribute_powers_zeta_par_indep (d : Domain F) (t : Nat) (ht : 0 < t) (a : List F)
+    (intoCoset : Bool) :
+    distributePowersZetaPar d t a intoCoset = distributePowersZeta d a intoCoset := by
+  unfold distributePowersZetaPar distributePowersZeta
+  exact (parallelize_indexed_indep t ht _ a).2
+
+/-- `ifft`: the final scaling pass through `parallelize` is thread-independent. -/
+theorem ifft_par_indep (t : Nat) (ht : 0 < t) (a : List F) (omegaInv : F) (logn : Nat) (divisor : F) :
+    ifftPar t a omegaInv logn divisor = ifft t a omegaInv logn divisor := by
+  unfold ifftPar ifft
+  congr 1
+  funext l
+  exact parallelize_map_indep t ht _ l
+
+/-- All four conversions of `EvaluationDomain` with their `parallelize` passes spelled out equal the
+thread-free definitions the `*_spec` theorems are about. -/
+theorem domain_conversions_par_indep (d : Domain F) (t : Nat) (ht : 0 < t) (a : List F) :
+    d.lagrangeToCoeffPar t a = d.lagrangeToCoeff t a ∧
+    d.coeffToExtendedPar t a = d.coeffToExtended t a ∧
+    d.extendedToCoeffPar t a = d.extendedToCoeff t a ∧
+    d.extendedToLagrangePar t a = d.extendedToLagrange t a := by
+  refine ⟨?_, ?_, ?_, ?_⟩
+  · exact ifft_par_indep t ht _ _ _ _
+  · unfold Domain.coeffToExtendedPar Domain.coeffToExtended
+    simp only [distribute_powers_zeta_par_indep d t ht]
+  · unfold Domain.extendedToCoeffPar Domain.extendedToCoeff
+    rw [ifft_par_indep t ht]
+    congr 1
+    funext l
+    exact distribute_powers_zeta_par_indep d t ht l false
+  · unfold Domain.extendedToLagrangePar Domain.extendedToLagrange
+    rw [ifft_par_indep t ht]
+    simp only [distribute_powers_zeta_par_indep d t ht]
+    rfl
+
+/-- `divide_by_vanishing_poly` (running `index % t_evaluations.len()`): thread-independent. -/
+theorem divide_by_vanishing_par_indep (d : Domain F) (t : Nat) (ht : 0 < t) (a : List F) :
+    d.divideByVanishingPolyPar t a = d.divideByVanishingPoly a := by
+  unfold Domain.divideByVanishingPolyPar Domain.divideByVanishingPoly
+  split
+  · rfl
+  · congr 1
+    exact (parallelize_indexed_indep t ht _ a).2
+
+/-- `g_to_lagrange`: the scaling by `n⁻¹` through `parallelize` is thread-independent. -/
+theorem g_to_lagrange_par_indep (fc : FieldConsts F) (t : Nat) (ht : 0 < t) (twoInv rootInv : F)
+    (pw : F → Nat → F) (g : List F) (k : Nat) :
+    gToLagrangePar fc t twoInv rootInv pw g k = gToLagrange fc t twoInv rootInv pw g k := by
+  unfold gToLagrangePar gToLagrange
+  simp only []
+  congr 1
+  funext l
+  exact parallelize_map_indep t ht _ l
+
+/-- `Polynomial::mul_assign(rhs)` (zeroing for `rhs = 0`, nothing for `rhs = 1`, otherwise a
+scaling pass — each through `parallelize`) is the entry-wise product for every thread count. -/
+theorem poly_scale_par_indep [DecidableEq F] (t : Nat) (ht : 0 < t) (lhs : List F) (rhs : F) :
+    polyScalePar t lhs rhs = lhs.map (· * rhs) := by
+  unfold polyScalePar
+  split
+  · next h => rw [parallelize_map_indep t ht, h]; simp
+  · split
+    · exact parallelize_map_indep t ht _ lhs
+    · next h => simp at h; simp [h]
+
+/-- `ParamsKZG::unsafe_setup`, first loop: although every worker restarts its running product from
+`s^start`, the vector is `[g1·s⁰, g1·s¹, …, g1·s^(n−1)]` for every positive thread count. -/
+theorem setup_g_par_indep (t : Nat) (ht : 0 < t) (g1 s : F) (n : Nat) :
+    setupG t (fun a e => a ^ e) g1 s n = (List.range n).map (fun i => g1 * s ^ i) :=
+  setupG_eq t ht g1 s n
+
+example : setupG 3 (fun a e => a ^ e) (1 : Int) 2 7 = [1, 2, 4, 8, 16, 32, 64] := by decide
+
+end
+
+section
+variable {R G : Type} [CommRing R] [AddCommGroup G] [Module R G]
+
+/-- `MSMKZG::scale(f)` (a `par_iter_mut` map) followed by `eval` is `f ·` the unscaled evaluation:
+`Σ (sᵢ·f)·Bᵢ = f · Σ sᵢ·Bᵢ`. -/
+theorem msm_scale_spec (scalars : List R) (bases : List G) (f : R) :
+    (((msmScale scalars f).zip bases).map (fun sb => sb.1 • sb.2)).sum
+      = f • ((scalars.zip bases).map (fun sb => sb.1 • sb.2)).sum := by
+  unfold msmScale
+  induction scalars generalizing bases with
+  | nil => simp
+  | cons x r ih =>
+    cases bases with
+    | nil => simp
+    | cons b bs =>
+      simp only [List.map_cons, List.zip_cons_cons, List.sum_cons, smul_add]
+      rw [ih bs, mul_comm, mul_smul]
+
+end
+
+section
+variable {F : Type} [Field F] [DecidableEq F]
+
+/-- `ParamsKZG::unsafe_setup`, second loop: for `s` off the domain (on it `.invert().unwrap()`
+panics — probability `n/r` for the random `s`), every positive thread count yields, at index `i`,
+the generator times `lᵢ(s)`, the Lagrange basis value of `l_i_barycentric_partial`: the
+Lagrange-basis SRS is `[lᵢ(s)]G`. -/
+theorem setup_g_lagrange_par_indep (t : Nat) (ht : 0 < t) (g1 s root : F) (n : Nat)
+    (hs : ∀ i < n, s ≠ root ^ i) :
+    setupGLagrange t (fun a e => a ^ e) (fun a => if a = 0 then none else some a⁻¹) g1 s root
+        (n : F)⁻¹ n
+      = some ((List.range n).map (fun (i : Nat) => g1 * lagrangeBasisEval root n (i : Int) s)) := by
+  rw [setupGLagrange_eq t ht g1 s root _ n hs]
+  congr 1
+  apply List.map_congr_left
+  intro i hi
+  unfold lagrangeBasisEval
+  have hne : s ≠ root ^ (i : Int) := by
+    rw [zpow_natCast]; exact hs i (List.mem_range.mp hi)
+  rw [if_neg hne, zpow_natCast, div_eq_mul_inv, mul_inv]
+  ring
+
+example : setupGLagrange 2 (fun a e => a ^ e) (fun a : ℚ => if a = 0 then none else some a⁻¹)
+    1 3 (-1) ((2 : ℕ) : ℚ)⁻¹ 2 = some [2, -1] := by
+  norm_num [setupGLagrange, parallelizeWithOpt, chunks, List.range, List.range.loop, List.zipIdx]
+
+omit [DecidableEq F] in
+/-- `l_i_range` beyond `n` and at negative indices: the basis value only depends on the rotation
+modulo `n` (`ωⁿ = 1`): `l_{r+n} = l_r`, `l_{−r} = l_{n−r}`. With `l_i_barycentric_partial` this
+covers the `0..n+3` and `−n−2..0` ranges of the property's quantifier. -/
+theorem l_i_rotation_periodic [DecidableEq F] (ω : F) (n : Nat) (hω : ω ^ n = 1) (hω0 : ω ≠ 0)
+    (r : Int) (x : F) :
+    lagrangeBasisEval ω n (r + n) x = lagrangeBasisEval ω n r x ∧
+    lagrangeBasisEval ω n (-r) x = lagrangeBasisEval ω n (n - r) x := by
+  have h1 : ω ^ (r + (n : Int)) = ω ^ r := by
+    rw [zpow_add₀ hω0, zpow_natCast, hω, mul_one]
+  have h2 : ω ^ ((n : Int) - r) = ω ^ (-r) := by
+    rw [sub_eq_add_neg, zpow_add₀ hω0, zpow_natCast, hω, one_mul]
+  unfold lagrangeBasisEval
+  rw [h1, h2]
+  exact ⟨rfl, rfl⟩
+
+omit [DecidableEq F] in
+/-- The closed form is the Lagrange basis POLYNOMIAL: off its node, `ω^r(xⁿ−1)/(n(x−ω^r))` equals
+`(1/n)·Σ_{j<n} (x·ω^{−r})ʲ`, i.e. the evaluation at `x` of the polynomial with coefficients
+`ω^{−rj}/n` — the coefficient vector `lagrange_to_coeff` returns for the unit vector `e_r`
+(`(1/n)·DFT_{ω⁻¹}`, `ifft_fft_id`) — for every integer rotation. -/
+theorem l_i_closed_form_eq_basis_polynomial [DecidableEq F] (ω : F) (n : Nat) (hω : ω ^ n = 1)
+    (hω0 : ω ≠ 0) (hn : (n : F) ≠ 0) (r : Int) (x : F) (hx : x ≠ ω ^ r) :
+    lagrangeBasisEval ω n r x = (n : F)⁻¹ * ∑ j ∈ Finset.range n, (x * (ω ^ r)⁻¹) ^ j := by
+  have hωr : ω ^ r ≠ 0 := zpow_ne_zero r hω0
+  have hy : x * (ω ^ r)⁻¹ ≠ 1 := by
+    intro h
+    apply hx
+    have := congrArg (· * ω ^ r) h
+    simpa [mul_assoc, inv_mul_cancel₀ hωr] using this
+  have hpow : (ω ^ r) ^ n = 1 := by
+    rw [← zpow_natCast, ← zpow_mul, mul_comm, zpow_mul, zpow_natCast, hω, one_zpow]
+  rw [geom_sum_eq hy, mul_pow, inv_pow, hpow, inv_one, mul_one]
+  unfold lagrangeBasisEval
+  rw [if_neg hx]
+  have hd : x - ω ^ r ≠ 0 := sub_ne_zero.mpr hx
+  have hd2 : x * (ω ^ r)⁻¹ - 1 ≠ 0 := sub_ne_zero.mpr hy
+  field_simp
+
+end
+
+section
+variable {F : Type} [CommRing F]
+
+/-- `powers(base)` (`successors(Some(1), |p| base * p)`): the first `n` items are
+`base⁰, …, base^(n−1)`. -/
+theorem powers_spec (base : F) (n : Nat) :
+    powersTake base n = (List.range n).map (fun i => base ^ i) := by
+  have hgo : ∀ (m : Nat) (cur : F), powersTake.go base m cur
+      = (List.range (m + 1)).map (fun i => base ^ i * cur) := by
+    intro m
+    induction m with
+    | zero => intro cur; simp [powersTake.go]
+    | succ m ih =>
+      intro cur
+      rw [powersTake.go, ih, List.range_succ_eq_map (n := m + 1), List.map_cons, List.map_map]
+      simp only [pow_zero, one_mul, List.cons.injEq, true_and]
+      apply List.map_congr_left
+      intro i _
+      simp only [Function.comp, pow_succ]
+      ring
+  cases n with
+  | zero => rfl
+  | succ n => rw [powersTake, hgo]; simp
+
+example : powersTake (3 : Int) 5 = [1, 3, 9, 27, 81] := by decide
+
+/-- `inner_product(items, scalars)` over field elements: `Σ itemᵢ·scalarᵢ` over the common prefix
+(`zip`), and the `unwrap` of the empty reduction panics exactly when that prefix is empty. -/
+theorem inner_product_spec (items scalars : List F) :
+    innerProduct (· * ·) (· + ·) items scalars
+      = if items = [] ∨ scalars = [] then none else some ((List.zipWith (· * ·) items scalars).sum) := by
+  unfold innerProduct
+  cases items with
+  | nil => simp
+  | cons p ps =>
+    cases scalars with
+    | nil => simp
+    | cons c cs =>
+      simp only [List.zip_cons_cons, List.map_cons, reduceCtorEq, or_self, if_false, List.zipWith_cons_cons,
+        List.sum_cons]
+      congr 1
+      rw [foldl_add_map (fun x : F => x) _ (p * c)]
+      simp only [List.map_id']
+      congr 1
+      rw [map_zip_mul]
+
+example : innerProduct (· * ·) (· + ·) [(1 : Int), 2, 3] [4, 5] = some 14 ∧
+    innerProduct (· * ·) (· + ·) ([] : List Int) [4, 5] = none := by decide
+
+/-- `evals_inner_product(evals_set, scalars)`: when every evaluation vector has the length `m` of the
+first one, the result is the scalar-weighted sum, entry by entry: `res[i] = Σⱼ evalsⱼ[i]·sⱼ` over the
+common prefix of sets and scalars; an empty `evals_set` panics (`evals_set[0]`). (A later vector
+shorter than the first panics with an index out of bounds — correspondence line `evalsinner-short`.) -/
+theorem evals_inner_product_spec (first : List F) (rest : List (List F)) (scalars : List F)
+    (hlen : ∀ e ∈ rest, e.length = first.length) :
+    evalsInnerProduct (first :: rest) scalars
+      = some ((List.range first.length).map (fun i =>
+          ((((first :: rest).zip scalars)).map (fun es => es.1.getD i 0 * es.2)).sum)) ∧
+    evalsInnerProduct ([] : List (List F)) scalars = none := by
+  refine ⟨?_, rfl⟩
+  unfold evalsInnerProduct
+  simp only []
+  rw [evals_fold first.length _ _ (by simp) (fun es hes => by
+    have := (List.of_mem_zip hes).1
+    rcases List.mem_cons.mp this with h | h
+    · rw [h]
+    · exact hlen _ h)]
+  congr 1
+  apply List.map_congr_left
+  intro i hi
+  have hi' : i < first.length := List.mem_range.mp hi
+  simp [List.getD, hi']
+
+example : evalsInnerProduct [[(1 : Int), 2], [3, 4]] [10, 100] = some [310, 420] := by decide
+
+end
+
+/-- `truncate` (feature `truncated-challenges`) for the BLS12-381 scalar field (`NUM_BITS = 255`):
+the low 16 bytes, i.e. the value modulo `2^128` — for every input; the result is below `2^128`.
+(Mirror and theorem only: the feature is off in the harness build, so this one is not tied.) -/
+theorem truncate_spec (v : Nat) :
+    truncateScalar Gen.frNumBits v = v % 2 ^ 128 ∧ truncateScalar Gen.frNumBits v < 2 ^ 128 := by
+  have h : truncateScalar Gen.frNumBits v = v % 2 ^ 128 := by
+    unfold truncateScalar
+    have : (256 : Nat) ^ (((Gen.frNumBits + 7) / 8 + 1) / 2) = 2 ^ 128 := by decide
+    rw [this]
+  exact ⟨h, h ▸ Nat.mod_lt _ (by positivity)⟩
+
+/-! ### The inventory -/
+
+/-- The reviewed parallel / chunked sites, in source order: `(file, fn, kind)` and, for the reader,
+the mirror and the theorem covering the site. -/
+def reviewedParSites : List ((String × String × String) × String) := [
+  (("proofs/src/utils/arithmetic.rs", "g_to_lagrange", "parallelize"), "gToLagrangePar; g_to_lagrange_par_indep"),
+  (("proofs/src/utils/arithmetic.rs", "eval_polynomial", "current_num_threads"), "evalPolynomial t; eval_chunked_eq_horner"),
+  (("proofs/src/utils/arithmetic.rs", "eval_polynomial", "rayon::scope"), "evalPolynomial t; eval_chunked_eq_horner"),
+  (("proofs/src/utils/arithmetic.rs", "eval_polynomial", "chunks"), "evalPolynomial: parts.chunks_mut(1), the t result slots"),
+  (("proofs/src/utils/arithmetic.rs", "eval_polynomial", "chunks"), "evalPolynomial: poly.chunks(chunk_size) = chunksOf"),
+  (("proofs/src/utils/arithmetic.rs", "parallelize", "current_num_threads"), "chunks len t; parallelize_partition"),
+  (("proofs/src/utils/arithmetic.rs", "parallelize", "rayon::scope"), "chunks len t; parallelize_partition"),
+  (("proofs/src/utils/arithmetic.rs", "parallelize", "chunks_exact"), "chunks: the cutoff chunks of base+1"),
+  (("proofs/src/utils/arithmetic.rs", "parallelize", "chunks_exact"), "chunks: the chunks of base"),
+  (("proofs/src/poly/domain.rs", "divide_by_vanishing_poly", "parallelize"), "divideByVanishingPolyPar; divide_by_vanishing_par_indep"),
+  (("proofs/src/poly/domain.rs", "distribute_powers_zeta", "parallelize"), "distributePowersZetaPar; distribute_powers_zeta_par_indep"),
+  (("proofs/src/poly/domain.rs", "ifft", "parallelize"), "ifftPar; ifft_par_indep"),
+  (("proofs/src/poly/mod.rs", "add_assign", "parallelize"), "polyZipPar (+); poly_zip_par_indep"),
+  (("proofs/src/poly/mod.rs", "add", "parallelize"), "polyZipPar (+); poly_zip_par_indep"),
+  (("proofs/src/poly/mod.rs", "sub", "parallelize"), "polyZipPar (-); poly_zip_par_indep"),
+  (("proofs/src/poly/mod.rs", "mul_assign", "parallelize"), "polyScalePar (rhs = 0); poly_scale_par_indep"),
+  (("proofs/src/poly/mod.rs", "mul_assign", "parallelize"), "polyScalePar; poly_scale_par_indep"),
+  (("proofs/src/poly/kzg/msm.rs", "scale", "par_iter"), "msmScale (rayon's own index-free map); msm_scale_spec"),
+  (("proofs/src/poly/kzg/params.rs", "unsafe_setup", "parallelize"), "setupG; setup_g_par_indep"),
+  (("proofs/src/poly/kzg/params.rs", "unsafe_setup", "parallelize"), "setupGLagrange; setup_g_lagrange_par_indep"),
+  (("proofs/src/poly/kzg/params.rs", "read_custom", "parallelize"), "readPointsPar; read_points_par_indep"),
+  (("curves/src/fft.rs", "best_fft", "current_num_threads"), "bestFft t (path choice); best_fft_eq_dft"),
+  (("curves/src/fft.rs", "best_fft", "chunks"), "fftIterStage (serial chunks_mut); fft_iterative_eq_recursive"),
+  (("curves/src/fft.rs", "recursive_butterfly_arithmetic", "rayon::join"), "fftRec (disjoint halves); fft_recursive_eq_dft"),
+  (("curves/src/msm.rs", "msm_parallel", "current_num_threads"), "msmParallel t; msm_parallel_spec"),
+  (("curves/src/msm.rs", "msm_parallel", "chunks"), "msmParallel: num_chunks"),
+  (("curves/src/msm.rs", "msm_parallel", "rayon::scope"), "msmParallel t; msm_parallel_spec"),
+  (("curves/src/msm.rs", "msm_parallel", "chunks"), "msmParallel: coeffs.chunks(chunk)"),
+  (("curves/src/msm.rs", "msm_parallel", "chunks"), "msmParallel: bases.chunks(chunk)"),
+  (("curves/src/msm.rs", "msm_best", "par_iter"), "to_repr per coefficient (index-free map)"),
+  (("curves/src/msm.rs", "msm_best", "par_iter"), "Affine::from per base (index-free map)"),
+  (("curves/src/msm.rs", "msm_best", "par_iter"), "one independent windowBest per window; msm_best_spec")
+]
+
+/-- **Every parallel / chunked site of the anchored sources is a reviewed one**
+(`translators/c12_parsites.py` scans `proofs/src/utils/arithmetic.rs`, `poly/domain.rs`,
+`poly/mod.rs`, every `poly/kzg/*.rs`, `curves/src/{fft,msm}.rs` on every run for `parallelize(`,
+`par_chunks`, `.chunks(`, `chunks_exact`, `par_iter`, `rayon::{scope,join,spawn}`,
+`current_num_threads`): a NEW site, or one that moved to another function or changed its kind,
+breaks this theorem until it has a mirror and a thread-independence theorem. -/
+theorem par_sites_all_reviewed : Gen.parSites = reviewedParSites.map (·.1) := by decide
 
 /-! ## Constants the FFT / domain code reads (regenerated from the source on every run) -/
 
